@@ -323,6 +323,7 @@ structure C14St where
   offs : List (Nat × Nat) := []          -- host ↦ ms slept inside the current step
   msgs : List C14Msg := []
   recvLog : List (Nat × Nat × Nat) := [] -- (receiver, id, recv ms)
+  lastEmpty : List (Nat × Nat) := []     -- receiver ↦ last step in which a `try_recv_from` found its queue empty
   res : OResult := {}
 
 def c14Lat (st : C14St) (a b : Nat) : Nat × Nat :=
@@ -361,20 +362,33 @@ def c14Step (st : C14St) (x : Nat × List String × List String) : C14St :=
     | _, _ => st
   | [h, "udp_tryrecv", _, _] =>
     match obs with
+    | ["err", "wouldblock"] =>
+      let r := hostTok h
+      { st with lastEmpty := (st.lastEmpty.filter (·.1 != r)) ++ [(r, st.step)] }
     | ["ok", _, _, hex] =>
       match msgId hex with
       | some id =>
         let r := hostTok h
         let recvMs := st.step * st.tick
+        -- the latest moment the datagram can have reached the socket's queue: messages are handed to a host
+        -- at the start of its turn, so a queue seen empty during step j received it in step j+1 or later; a
+        -- receiver that did not drain its queue (more arrivals than reads in a step) reads it later than it
+        -- arrived, and that lag is the reader's, not the link's
+        let arrivedBy := match st.lastEmpty.find? (·.1 == r) with
+          | some (_, j) => if j < st.step then some ((j + 1) * st.tick) else some recvMs
+          | none => none
         let st := if st.recvLog.any (·.2.1 == id) then fail st s!"datagram {id} delivered twice" else st
         let st := { st with recvLog := st.recvLog ++ [(r, id, recvMs)] }
         match st.msgs.find? (·.id == id) with
         | some m =>
           if m.sendMs + m.minL > recvMs + st.tick then
             fail st s!"datagram {id}: latency {recvMs}-{m.sendMs} ms below min {m.minL} ms - tick {st.tick} ms"
-          else if recvMs > m.sendMs + m.maxL + st.tick then
-            fail st s!"datagram {id}: latency {recvMs}-{m.sendMs} ms above max {m.maxL} ms + tick {st.tick} ms"
-          else st
+          else match arrivedBy with
+            | some a =>
+              if a > m.sendMs + m.maxL + st.tick then
+                fail st s!"datagram {id}: latency {a}-{m.sendMs} ms above max {m.maxL} ms + tick {st.tick} ms"
+              else st
+            | none => st
         | none => st
       | none => st
     | _ => st
